@@ -1434,3 +1434,154 @@ Proof.
   - eapply Permutation_in; [apply Permutation_sym, Permutation_map, store_list_perm|].
     fold (names (map db_lease (leases s))). rewrite names_db. exact Hp.
 Qed.
+
+(** * Statements as used in Props/C10.v *)
+
+Lemma HInv_expanded L hi :
+  HInv (names L) hi <->
+  (forall h ip, hi h = Some ip <-> h <> [] /\ exists l, In l L /\ l_ip l = ip /\ l_host l = h).
+Proof.
+  unfold HInv. split; intros H h ip; rewrite (H h ip); clear H.
+  - split; intros [? Hin]; split; auto.
+    + apply in_map_iff in Hin as (l & E & Hl). inversion E; eauto.
+    + destruct Hin as (l & Hl & <- & <-). apply in_map_iff. exists l; auto.
+  - split; intros [? Hin]; split; auto.
+    + destruct Hin as (l & Hl & <- & <-). apply in_map_iff. exists l; auto.
+    + apply in_map_iff in Hin as (l & E & Hl). inversion E; eauto.
+Qed.
+
+Theorem inv_reachable_expanded : forall c h, valid_conf c ->
+  let s := run c h empty_state in
+  NoDup (map l_ip (leases s)) /\ NoDup (map l_mac (leases s)) /\
+  (forall l, In l (leases s) -> l_static l = false ->
+     in_pool c (l_ip l) = true /\ l_ip l <> c_gw c /\
+     forall r, In r (leases s) -> l_static r = true -> l_ip r <> l_ip l) /\
+  (forall l, In l (leases s) -> l_static l = true ->
+     in_subnet c (l_ip l) = true /\ l_ip l <> c_gw c) /\
+  (forall ip, iidx (ix s) ip = true <-> In ip (map l_ip (leases s))) /\
+  (forall o, offs (ix s) o = true <->
+     In (c_start c + o) (map l_ip (leases s)) /\ c_start c + o <= c_end c) /\
+  (forall h ip, hidx (ix s) h = Some ip <->
+     h <> [] /\ exists l, In l (leases s) /\ l_ip l = ip /\ l_host l = h) /\
+  NoDup (map l_ip (disk s)) /\ NoDup (map l_mac (disk s)).
+Proof.
+  intros c h V s. pose proof (full_inv_reachable c h) as [I H]. fold s in I, H.
+  pose proof I as [[A B C D] [X Y] [K1 K2 _]].
+  pose proof (proj1 (HInv_expanded _ _) H) as H'.
+  split; [exact A|]. split; [exact B|].
+  split; [intros l Hl Hs; apply (dynamic_addresses c s V I); auto|].
+  split; [exact D|]. split; [exact X|]. split; [exact Y|]. split; [exact H'|].
+  split; [exact K1|exact K2].
+Qed.
+
+Theorem one_holder_reachable : forall c h now,
+  let s := run c h empty_state in
+  forall l1 l2, In l1 (active now s) -> In l2 (active now s) ->
+  (l_ip l1 = l_ip l2 \/ l_mac l1 = l_mac l2) -> l1 = l2.
+Proof.
+  intros c h now s l1 l2 H1 H2. apply (one_holder c s); eauto using active_in.
+  apply inv_reachable.
+Qed.
+
+Theorem reservation_reachable : forall c h now o s' mt yi mac r,
+  let s := run c h empty_state in
+  step c s now o = (s', ROk mt yi) -> yi <> 0 -> op_mac o = Some mac ->
+  In r (leases s') -> l_static r = true -> l_mac r = mac -> yi = l_ip r.
+Proof. intros c h now o s' mt yi mac r s. apply reservation_respected. apply inv_reachable. Qed.
+
+Theorem liveness_reachable : forall c h now mac ip,
+  let s := run c h empty_state in
+  ~ In mac (map l_mac (leases s)) -> in_pool c ip = true -> ~ In ip (map l_ip (leases s)) ->
+  exists ip' s', step c s now (ODiscover mac) = (s', ROk 2 ip') /\
+    in_pool c ip' = true /\ ~ In ip' (map l_ip (leases s)) /\
+    exists l, In l (leases s') /\ l_ip l = ip' /\ l_mac l = mac.
+Proof. intros c h now mac ip s. apply offer_liveness. apply inv_reachable. Qed.
+
+(** The full statement of persistence ... *)
+Definition persistence_statement : Prop := forall c h,
+  let s := run c h empty_state in
+  let s' := restart c (store s) in
+  Permutation (leases s') (map db_lease (leases s)) /\
+  (forall h, ip_by_host s' h = ip_by_host s h) /\
+  (forall ip, host_by_ip s' ip = host_by_ip s ip).
+
+(** ... and what is proved of it so far: under the side condition that the
+    names of the dynamic leases are fixed points of the re-validation done on
+    reload (missing: that condition is itself an invariant; it needs
+    idempotence lemmas about [normalize] and [gen_hostname]). *)
+Theorem persistence_partial : forall c h,
+  let s := run c h empty_state in
+  NamesStable (leases s) ->
+  let s' := restart c (store s) in
+  Permutation (leases s') (map db_lease (leases s)) /\
+  (forall h, ip_by_host s' h = ip_by_host s h) /\
+  (forall ip, host_by_ip s' ip = host_by_ip s ip).
+Proof. intros c h s St. apply persistence; auto. apply full_inv_reachable. Qed.
+
+(** Whatever is in memory, the file written by a store lists it once. *)
+Theorem store_exact : forall s,
+  Permutation (disk (store s)) (map db_lease (leases s)).
+Proof. intros s. apply store_list_perm. Qed.
+
+
+(** * A concrete reachable state (non-vacuity of the premises) *)
+
+Definition example_conf : conf :=
+  Conf 167772164 167772167 167772160 167772175 167772161 3600000000000%Z 167772162.
+
+Definition example_now : Z := 1790000000000000000%Z.
+
+Definition example_history : list (Z * op) :=
+  let t := example_now in
+  [ (t, ODiscover 1);
+    (t, ORequest 1 (Some 167772162) (Some 167772164) 0 [65; 108; 112; 104; 97]);   (* "Alpha" *)
+    (t, OStaticAdd 2 167772170 [110; 97; 115]);                                       (* "nas" *)
+    (t, ODiscover 3);
+    (t, ORequest 3 (Some 167772162) (Some 167772165) 0 []);
+    (t, ORestart) ].
+
+Fixpoint names_stable_b (L : list lease) : bool :=
+  match L with
+  | [] => true
+  | l :: L' =>
+      (l_static l || is_nil (l_host l)
+       || eqb_bytes (valid_hostname_for_client (l_host l) (l_ip l)) (l_host l))
+      && names_stable_b L'
+  end.
+
+Lemma names_stable_b_spec L : names_stable_b L = true -> NamesStable L.
+Proof.
+  induction L as [|a L IH]; cbn; intros H l Hl Hs Hh; [destruct Hl|].
+  apply andb_true_iff in H as [Ha HL]. destruct Hl as [<-|Hl]; [|apply IH; auto].
+  rewrite Hs in Ha. cbn in Ha. apply orb_true_iff in Ha as [Ha|Ha].
+  - apply is_nil_spec in Ha. contradiction.
+  - apply eqb_bytes_spec; auto.
+Qed.
+
+Lemma premises_satisfiable :
+  valid_conf example_conf /\
+  let s := run example_conf example_history empty_state in
+  length (leases s) = 3%nat /\
+  NamesStable (leases s) /\
+  (exists l, In l (leases s) /\ l_static l = true) /\
+  (exists l, In l (active example_now s) /\ l_static l = false) /\
+  ~ In 9 (map l_mac (leases s)) /\
+  (exists ip, in_pool example_conf ip = true /\ ~ In ip (map l_ip (leases s))) /\
+  (exists s' mt yi r, step example_conf s example_now (ODiscover 2) = (s', ROk mt yi) /\ yi <> 0 /\
+     In r (leases s') /\ l_static r = true /\ l_mac r = 2).
+Proof.
+  split; [vm_compute; repeat split; congruence|].
+  intros s.
+  pose (L := leases s). assert (Es : leases s = L) by reflexivity. vm_compute in L.
+  split; [rewrite Es; reflexivity|].
+  split; [apply names_stable_b_spec; rewrite Es; vm_compute; reflexivity|].
+  split; [rewrite Es; eexists; split; [right; right; left; reflexivity|reflexivity]|].
+  split.
+  { unfold active. rewrite Es. eexists. split; [vm_compute; left; reflexivity|reflexivity]. }
+  split; [rewrite Es; vm_compute; intuition congruence|].
+  split; [exists 167772166; rewrite Es; split; [vm_compute; reflexivity|vm_compute; intuition congruence]|].
+  remember (step example_conf s example_now (ODiscover 2)) as r eqn:Er.
+  unfold s in Er. vm_compute in Er. destruct r as [s' rp]. inversion Er; subst.
+  do 4 eexists. split; [reflexivity|]. split; [discriminate|].
+  split; [cbn [leases]; right; right; left; reflexivity|]. split; reflexivity.
+Qed.
